@@ -300,10 +300,157 @@ def run(ctx) -> None:
                 return p_
         return None
 
+    # ---- every walk along neighbouring gaps (in the function or in the private helpers it calls) may visit every band:
+    #      each index bound in the walk's guard is exactly the bound that keeps an accessed E[...] index inside [0, len(E) − 1]
+    from ..sem import reachable_helpers
+    walk_funcs = [(f, S)] + [(h_, Sem(idx, h_)) for h_ in reachable_helpers(idx, f0)]
+    n_walks = 0
+    for wf, WS in walk_funcs:
+        e_name = Ep if wf is f else (wf.params[0] if wf.params else Ep)
+        t_name = thr_p if wf is f else next((p_ for p_ in wf.params if "thr" in p_), thr_p)
+
+        def gaps_in(e_: ast.AST):
+            out_ = []
+            for c_ in ast.walk(e_):
+                if isinstance(c_, ast.Compare) and len(c_.ops) == 1 and isinstance(c_.ops[0], ast.Lt) and norm(c_.comparators[0]) == t_name:
+                    l_ = c_.left
+                    if isinstance(l_, ast.Call) and call_name(l_) in ("abs", "np.abs") and l_.args:
+                        l_ = l_.args[0]
+                    if isinstance(l_, ast.BinOp) and isinstance(l_.op, ast.Sub) and isinstance(l_.left, ast.Subscript) and isinstance(l_.right, ast.Subscript) \
+                            and norm(l_.left.value) == norm(l_.right.value) == e_name:
+                        out_.append((c_, l_.left.slice, l_.right.slice))
+            return out_
+
+        def wenv(x):
+            if isinstance(x, ast.Call) and call_name(x) == "len" and len(x.args) == 1 and norm(x.args[0]) == e_name:
+                return Rat.sym("N")
+            if isinstance(x, ast.Subscript) and norm(x) == f"{e_name}.shape[0]":
+                return Rat.sym("N")
+            if isinstance(x, ast.Attribute) and norm(x) == f"{e_name}.size":
+                return Rat.sym("N")
+            if isinstance(x, ast.Name):
+                r_ = None
+                try:
+                    ds_ = WS.du.reaching(x.id, cur_at[0])
+                except Exception:
+                    ds_ = []
+                if len(ds_) == 1 and ds_[0].kind == "assign" and ds_[0].value is not None and isinstance(ds_[0].value, ast.Call) and call_name(ds_[0].value) == "len" \
+                        and norm(ds_[0].value.args[0]) == e_name:
+                    return Rat.sym("N")
+                return Rat.sym(x.id)
+            return None
+        cur_at = [0]
+        for lp_ in [x for x in ast.walk(wf.node) if isinstance(x, (ast.While, ast.For))]:
+            cons = []     # (kind 'lo'|'hi', expression Rat e, bound Rat K, node)  meaning e ≥ K / e ≤ K
+            acc = []
+            cur_at[0] = WS.cfg.node(lp_)
+            if isinstance(lp_, ast.While):
+                test_r = lp_.test
+                gts_ = gaps_in(test_r)
+                if not gts_:
+                    tr2 = resolved_test(lp_.test, lp_, {n_.id for st_ in ast.walk(lp_) for n_ in ast.walk(st_) if isinstance(n_, ast.Name) and isinstance(n_.ctx, ast.Store)}) if wf is f else lp_.test
+                    gts_ = gaps_in(tr2)
+                    test_r = tr2
+                if not gts_:
+                    continue
+                conj = test_r.values if isinstance(test_r, ast.BoolOp) and isinstance(test_r.op, ast.And) else [test_r]
+                for cj in conj:
+                    if isinstance(cj, ast.Compare) and not gaps_in(cj):
+                        terms = [cj.left] + list(cj.comparators)
+                        for (a_, op_, b_) in zip(terms, cj.ops, terms[1:]):
+                            try:
+                                ra, rb = to_rat(a_, wenv), to_rat(b_, wenv)
+                            except AnalysisError:
+                                continue
+                            one = Rat.const(1)
+                            if isinstance(op_, ast.Lt):
+                                cons += [("hi", ra, rb - one, cj), ("lo", rb, ra + one, cj)]
+                            elif isinstance(op_, ast.LtE):
+                                cons += [("hi", ra, rb, cj), ("lo", rb, ra, cj)]
+                            elif isinstance(op_, ast.Gt):
+                                cons += [("lo", ra, rb + one, cj), ("hi", rb, ra - one, cj)]
+                            elif isinstance(op_, ast.GtE):
+                                cons += [("lo", ra, rb, cj), ("hi", rb, ra, cj)]
+            else:
+                if not (isinstance(lp_.iter, ast.Call) and call_name(lp_.iter) == "range" and isinstance(lp_.target, ast.Name)):
+                    continue
+                own_ = [x for st_ in lp_.body for x in ast.walk(st_)]
+                inner_ = [x for x in own_ if isinstance(x, (ast.While, ast.For))]
+                tests_ = [x.test for x in own_ if isinstance(x, ast.If) and not any(x in ast.walk(il) for il in inner_)]
+                gts_ = []
+                for t_ in tests_:
+                    g_ = gaps_in(t_) or (gaps_in(resolved_test(t_, enclosing(WS.pm, t_, ast.stmt) or lp_, {lp_.target.id})) if wf is f else [])
+                    gts_ += g_
+                if not gts_:
+                    continue
+                ra_ = lp_.iter.args
+                w_ = Rat.sym(lp_.target.id)
+                try:
+                    if len(ra_) == 2 or (len(ra_) == 3 and norm(ra_[2]) == "1"):
+                        cons.append(("hi", w_, to_rat(ra_[1], wenv) - Rat.const(1), lp_.iter))
+                    elif len(ra_) == 3 and norm(ra_[2]).replace(" ", "") in ("-1", "(-1)"):
+                        cons.append(("lo", w_, to_rat(ra_[1], wenv) + Rat.const(1), lp_.iter))
+                    elif len(ra_) == 1:
+                        cons.append(("hi", w_, to_rat(ra_[0], wenv) - Rat.const(1), lp_.iter))
+                except AnalysisError:
+                    continue
+            for _c, a_, b_ in gts_:
+                for ix in (a_, b_):
+                    try:
+                        acc.append(to_rat(ix, wenv))
+                    except AnalysisError:
+                        pass
+            if not acc:
+                continue
+            n_walks += 1
+            N_ = Rat.sym("N")
+            for kind_, e_, K_, node_ in cons:
+                rel = []
+                for a_ in acc:
+                    d_ = a_ - e_
+                    dp = d_.as_poly() if d_.d.as_const() is not None else None
+                    if dp is not None and dp.as_const() is not None:
+                        rel.append(K_ + d_)
+                if not rel:
+                    continue            # the constraint is not about an accessed index
+                want_ = Rat.const(0) if kind_ == "lo" else N_ - Rat.const(1)
+                tight = any(r_.equals(want_) for r_ in rel)
+                r2.check(tight, f"{wf.qualname}: walk guard keeps the accessed band index exactly inside [0, len({e_name}) − 1]", wf, node_,
+                         f"{wf.qualname}: the walk along neighbouring gaps is guarded by `{norm1(node_, 70)}`, which limits an accessed index of {e_name} to "
+                         f"{'≥ ' if kind_ == 'lo' else '≤ '}{' or '.join(str(r_) for r_ in rel)} instead of {'0' if kind_ == 'lo' else 'len − 1'}: "
+                         f"the {'first' if kind_ == 'lo' else 'last'} band is never reached, so a multiplet containing it is split by the window edge",
+                         stmt=f"walk bound {norm1(node_, 60)}")
+    r2.expect(n_walks >= 2, "gap walks located", f, f.node, f"select_window_degen: expected ≥2 walks along neighbouring gaps (in it or its helpers), found {n_walks}")
+
     edge_loops = [l for l in stmts(f.node) if isinstance(l, ast.For) and isinstance(l.iter, ast.Call) and call_name(l.iter) == "range"
                   and any(mask_store(x) is not None for x in ast.walk(l) if isinstance(x, ast.stmt))
                   and not any(isinstance(p_, (ast.For, ast.While)) for p_ in enclosing_all(pm, l, (ast.For, ast.While)))]
-    if len(edge_loops) != 2:
+    if len(edge_loops) == 0:
+        # slice form: the cut multiplet is added / removed by one slice store whose ends come from a gap walk
+        sl_stores = [x for x in stmts(f.node) if mask_store(x) is not None and isinstance(x.targets[0].slice, ast.Slice)]
+        r2.expect(len(sl_stores) >= 4, "slice stores located", f, f.node,
+                  f"select_window_degen: neither two window-edge loops nor four slice stores (include/exclude × upper/lower) found")
+        helper_names = {h_.name for h_, _ in walk_funcs[1:]}
+        walk_vars = set()
+        for lp_ in [x for x in ast.walk(f.node) if isinstance(x, ast.While)]:
+            tr_ = resolved_test(lp_.test, lp_, {n_.id for st_ in ast.walk(lp_) for n_ in ast.walk(st_) if isinstance(n_, ast.Name) and isinstance(n_.ctx, ast.Store)})
+            if gap_tests(tr_) or gap_tests(lp_.test):
+                walk_vars |= {n_.id for st_ in lp_.body for n_ in ast.walk(st_) if isinstance(n_, ast.Name) and isinstance(n_.ctx, ast.Store)}
+        for pol in (True, False):
+            mine = [x for x in sl_stores if mask_store(x) is pol and cond_inc(S.conditions(x)) is pol]
+            r2.instance(f"{f.short}: slice stores under include_degen={pol}: {len(mine)}")
+            okw = len(mine) >= 2
+            for x in mine:
+                sl_exprs, _, _ = du.backward_slice(x.targets[0].slice, cfg.node(x))
+                from_walk = any(isinstance(c_, ast.Call) and (getattr(c_.func, "id", None) in helper_names or getattr(c_.func, "attr", None) in helper_names)
+                                for e_ in list(sl_exprs) + [x.targets[0].slice] for c_ in ast.walk(e_)) or \
+                    any(isinstance(n_, ast.Name) and n_.id in walk_vars for e_ in list(sl_exprs) + [x.targets[0].slice] for n_ in ast.walk(e_))
+                okw = okw and from_walk
+            r2.check(okw, f"include_degen={pol}: the cut multiplet is {'added' if pol else 'removed'} as one slice reaching to the end found by the gap walk (both edges)",
+                     f, mine[0] if mine else f.node,
+                     f"include_degen={pol}: the window edges do not {'add' if pol else 'remove'} the whole cut multiplet (a slice up to the end of the gap walk) on both edges")
+        edge_loops = []
+    elif len(edge_loops) != 2:
         raise AnalysisError(f"select_window_degen: expected two window-edge loops, found {len(edge_loops)}")
     for lp in edge_loops:
         rng = lp.iter.args
@@ -428,6 +575,8 @@ SELFTEST = [
       "fire", "R15.2"),
     V("walk anchored to the edge band (seeded C15-m1)", UT, "while j > 0 and E[j] - E[j - 1] < thresh:", "while j > 0 and E[i] - E[j - 1] < thresh:",
       "fire", "R15.2"),
+    V("exclude walk cannot reach the last band", UT, "while j < NB - 1 and E[j + 1] - E[j] < thresh:", "while j < NB - 2 and E[j + 1] - E[j] < thresh:", "fire", "R15.2"),
+    V("upper edge loop stops one band early", UT, "    for i in range(ind[-1], NB - 1):\n", "    for i in range(ind[-1], NB - 2):\n", "fire", "R15.2"),
     V("include arm stops after one band", UT, "            if include_degen:\n                inside[i + 1] = True\n",
       "            if include_degen:\n                inside[i + 1] = True\n                break\n", "fire", "R15.2"),
     V("find_degen uses >=", UT, "A = np.where(arr[1:] - arr[:-1] > degen_thresh)[0] + 1", "A = np.where(arr[1:] - arr[:-1] >= degen_thresh)[0] + 1",
